@@ -203,7 +203,7 @@ func c11R2(p *core.Prog, r *core.Report) {
 
 func c11R3(p *core.Prog, r *core.Report) {
 	const rule = "C11/R3"
-	r.Rule(rule, "every mutation of a hold found by GetLockedLock in Lock/UnLock follows the test ackCount == 0xff", 20)
+	r.Rule(rule, "every mutation of a hold found by GetLockedLock in Lock/UnLock - or taken as the oldest holder by UnLock's unlock-first arm - follows the test ackCount == 0xff", 20)
 	for _, name := range []string{"server.(*LockDB).Lock", "server.(*LockDB).UnLock"} {
 		fn := mustFunc(p, r, name)
 		if fn == nil {
@@ -232,13 +232,14 @@ func c11R3(p *core.Prog, r *core.Report) {
 								continue
 							}
 							c := core.Plain(x.Canon(a).S)
-							if isPureCall(c, "GetLockedLock") {
+							if isPureCall(c, "GetLockedLock") || (fn.Name() == "UnLock" && strings.HasSuffix(c, ".currentLock")) {
 								target, what = c, "call "+n
 							}
 						}
 					}
 				}
-				if !isPureCall(target, "GetLockedLock") {
+				// the hold the request names, or (UnLock's unlock-first arm) the key's oldest holder
+				if !isPureCall(target, "GetLockedLock") && !(fn.Name() == "UnLock" && strings.HasSuffix(target, ".currentLock")) {
 					return
 				}
 				key := siteKey(p, x.Ins)
